@@ -6,7 +6,9 @@ package gopkgs
 import (
 	"fmt"
 	"reflect"
+	"regexp"
 	"runtime"
+	"sort"
 	"strings"
 
 	"github.com/open2b/scriggo/native"
@@ -48,11 +50,24 @@ type Module struct {
 	// prescribes (all packages sorted by import path; repeatedly the first one whose
 	// imports are all initialised).
 	ImportOrderAgrees bool
+	// OrderAmbiguous: the order in which gc initialises the packages depends on whether a
+	// package without init function has initialisation work at all (gc takes a package whose
+	// variables are initialised statically as initialised from the start, so a package
+	// importing it can go before the one that the specification's order puts first). For such a
+	// module a transcript that differs from gc's in the order of the lines only is not judged.
+	OrderAmbiguous bool
 }
 
 // initOrders returns the order of initialisation of the packages by the rule of the
 // specification and by a depth-first visit in source order.
 func initOrders(imports map[string][]string) (spec, dfs []string) {
+	return initOrdersPre(imports, nil)
+}
+
+// initOrdersPre is initOrders with the packages of pre taken as initialised from the start:
+// gc does so for a package without initialisation work (it has no init task), which can let a
+// package importing it go before a package that the specification's order puts first.
+func initOrdersPre(imports map[string][]string, pre map[string]bool) (spec, dfs []string) {
 	var all []string
 	for p := range imports {
 		all = append(all, p)
@@ -70,7 +85,10 @@ func initOrders(imports map[string][]string) (spec, dfs []string) {
 		}
 	}
 	done := map[string]bool{}
-	for len(spec) < len(all) {
+	for p := range pre {
+		done[p] = true
+	}
+	for len(spec)+len(pre) < len(all) {
 		for _, p := range all {
 			if done[p] {
 				continue
@@ -138,6 +156,33 @@ func Gen(t *rapid.T) Module {
 			pkgs = append(pkgs, "m/"+name)
 		}
 	}
+	agrees, ambiguous := OrderInfo(files)
+	return Module{Files: files, Pkgs: pkgs, ImportOrderAgrees: agrees, OrderAmbiguous: ambiguous}
+}
+
+var importRE = regexp.MustCompile(`(?m)^import "m/([a-z]+)"$`)
+
+// OrderInfo derives, from the files of a module, the two facts about package initialisation
+// order described at Module.ImportOrderAgrees and Module.OrderAmbiguous.
+func OrderInfo(files map[string]string) (agrees, ambiguous bool) {
+	graph := map[string][]string{}
+	hasInitFunc := map[string]bool{}
+	var names []string
+	for path, src := range files {
+		if !strings.HasSuffix(path, ".go") {
+			continue
+		}
+		name := "main"
+		if path != "main.go" {
+			name = strings.SplitN(path, "/", 2)[0]
+		}
+		names = append(names, name)
+		graph[name] = nil
+		for _, m := range importRE.FindAllStringSubmatch(src, -1) {
+			graph[name] = append(graph[name], m[1])
+		}
+	}
+	sort.Strings(names)
 	// packages that main does not reach are not part of the program
 	spec, dfs := initOrders(graph)
 	var specReached []string
@@ -150,7 +195,36 @@ func Gen(t *rapid.T) Module {
 			specReached = append(specReached, p)
 		}
 	}
-	return Module{Files: files, Pkgs: pkgs, ImportOrderAgrees: strings.Join(specReached, ",") == strings.Join(dfs, ",")}
+	// gc's order is ambiguous when it depends on whether a package without init function has
+	// initialisation work (static initialisers leave it without an init task)
+	var static []string
+	for _, p := range names {
+		if p != "main" && !hasInitFunc[p] {
+			static = append(static, p)
+		}
+	}
+	without := func(order []string, pre map[string]bool) string {
+		var out []string
+		for _, p := range order {
+			if !pre[p] && reached[p] {
+				out = append(out, p)
+			}
+		}
+		return strings.Join(out, ",")
+	}
+	for mask := 1; mask < 1<<len(static); mask++ {
+		pre := map[string]bool{}
+		for i, p := range static {
+			if mask&(1<<i) != 0 {
+				pre[p] = true
+			}
+		}
+		alt, _ := initOrdersPre(graph, pre)
+		if without(alt, pre) != without(spec, pre) {
+			ambiguous = true
+		}
+	}
+	return strings.Join(specReached, ",") == strings.Join(dfs, ","), ambiguous
 }
 
 type item struct {
